@@ -1,11 +1,20 @@
-"""props.py -- which families / variants / profiles decide which property, and how many plans per tier."""
+"""props.py -- which families / variants / profiles decide which property, and how many plans per tier.
+
+A job = (family, variants, profile, mode); mode "lockstep" runs every variant against the reference
+model, "diff:<what>" runs all listed variants on the same plans and compares them with each other.
+Counts are plans per variant (lockstep) or per job (diff)."""
 
 ALLV = ["B", "BC", "M", "MA", "MC"]
+POLV = ["B+p1", "B+p2", "B+p3", "M+p1", "M+p2", "M+p3", "BC+p3", "MC+p3"]
 
 # which variants each family is built for (default: ALLV)
 FAMILY_VARIANTS = {
     "events_hier": ["B", "M"],          # base-class / Kleene triggers: run-time-speed policies with flat_fold only (C18 quantifier)
     "serial_nested": ["B", "BC"],       # Boost.Serialization is offered by back / back11 only
+    "nest2_mixed": ALLV + POLV,
+    "order_rows": ALLV + POLV,
+    "conflict_ortho": ALLV + POLV,
+    "flags": ALLV + ["B+p3", "M+p3"],
 }
 
 
@@ -13,18 +22,148 @@ def variants_of(family):
     return FAMILY_VARIANTS.get(family, ALLV)
 
 
-def job(family, variants, profile, quick, thorough, san="", shards=4):
-    return {"family": family, "variants": variants, "profile": profile, "quick": quick, "thorough": thorough,
-            "san": san, "shards": shards}
+def job(family, profile, quick, thorough, variants=None, mode="lockstep", san="", shards=4):
+    return {"family": family, "variants": variants or variants_of(family), "profile": profile, "quick": quick,
+            "thorough": thorough, "san": san, "shards": shards, "mode": mode}
 
+
+def jobs(families, profiles, quick, thorough, variants=None, mode="lockstep"):
+    return [job(f, p, quick, thorough, variants=variants, mode=mode) for f in families for p in profiles]
+
+
+STRUCT = ["conflict_flat", "conflict_ortho", "order_rows", "nest2_mixed", "nest3"]
+COMMON_FAMS = ["conflict_flat", "conflict_ortho", "order_rows", "nest2_mixed", "nest3", "nest_inactive", "noevent", "exit_points",
+               "history_none", "history_always", "history_shallow", "queue_flat", "queue_nested", "blocking", "flags",
+               "completion_chain"]
 
 PROPS = {
     "C01": {
-        "jobs": [job("conflict_flat", ALLV, "plain", 2000, 100000),
-                 job("nest2_mixed", ALLV, "plain", 2000, 100000),
-                 job("nest2_mixed", ALLV, "posts", 1000, 50000)],
+        "jobs": jobs(STRUCT, ["plain"], 1500, 60000, variants=ALLV) + jobs(["nest2_mixed", "nest3", "conflict_ortho"], ["posts"], 800, 30000, variants=ALLV),
         "nontrivial": ["multi_candidate"],
-        "rule": "seeded plans (start + 4..16 events, independent guard vector per event) on generated machines; a run is "
-                "non-trivial when at least one dispatch consulted >= 2 guards; distinct = distinct full trace hash per (family, variant)",
+        "rule": "seeded plans (start + 4..16 events, an independent guard vector per event; half of the jobs add re-entrant posts) on the "
+                "generated machines, every variant in lockstep with the reference model; a run is non-trivial when at least one dispatch "
+                "consulted >= 2 guards; distinct = distinct full-trace hash per (family, variant)",
+    },
+    "C02": {
+        "jobs": jobs(["order_rows", "nest2_mixed", "nest3", "fork_entry", "history_always"], ["plain", "lifecycle"], 800, 40000, variants=ALLV),
+        "nontrivial": ["transition"],
+        "rule": "plans of events and stop/start cycles; lockstep compares every exit / action / entry record (order, event, state) and the "
+                "configuration after each op; non-trivial = at least one external transition was taken; distinct = full-trace hash",
+    },
+    "C03": {
+        "jobs": jobs(["conflict_ortho", "nest2_mixed", "nest3", "nest_inactive", "fork_entry", "exit_points", "history_always", "flags",
+                      "completion_chain"], ["lifecycle"], 800, 40000, variants=ALLV)
+                + jobs(["queue_nested", "nest2_mixed"], ["queue"], 600, 30000, variants=ALLV)
+                + jobs(["nest2_mixed"], ["reentrant"], 300, 3000, variants=["B", "M"]),
+        "nontrivial": ["stopstart"],
+        "rule": "histories of start / process_event / enqueue / stop with full introspection (active ids per level, is_state_active, "
+                "get_state_by_id, visitors, flags) after every op + the model-free entry/exit ledger I2; non-trivial = the history "
+                "contains a stop/start cycle; distinct = full-trace hash",
+    },
+    "C04": {
+        "jobs": jobs(["queue_flat", "queue_nested", "conflict_ortho", "completion_chain", "defer_basic", "nest2_mixed", "nest3"],
+                     ["queue"], 1000, 50000, variants=ALLV)
+                + jobs(["nest2_mixed", "queue_nested"], ["reentrant"], 300, 3000, variants=["B", "M"]),
+        "nontrivial": ["post"],
+        "rule": "plans with 0-3 re-entrant submissions per op from arbitrary callback positions (guard, exit, action, entry, no_transition, "
+                "initial entries during start()), to the fsm argument or to the root, through process_event / enqueue_event, mixed with "
+                "external enqueue / drain-all / drain-one; non-trivial = at least one re-entrant submission fired; distinct = full-trace hash",
+    },
+    "C05": {
+        "jobs": jobs(["defer_basic", "defer_action"], ["defer", "plain"], 1500, 60000, variants=ALLV)
+                + jobs(["defer_action"], ["defer_strict"], 300, 3000, variants=["B", "BC", "M", "MA", "MC"]),
+        "nontrivial": ["deferred"],
+        "rule": "event sequences over machines with deferring states / Defer actions, public defer_event, posts with the defer API; "
+                "non-trivial = a deferred occurrence was observed pending at a quiescent point; distinct = full-trace hash",
+    },
+    "C06": {
+        "jobs": jobs(["conflict_ortho", "nest2_mixed", "nest3", "noevent"], ["plain"], 1500, 60000, variants=ALLV),
+        "nontrivial": ["no_transition"],
+        "rule": "one external process_event at a time on a quiescent machine (no posts, no throws), independent guard vectors; lockstep "
+                "compares per-region order, return code and every no_transition call; non-trivial = at least one no_transition call "
+                "occurred in the run; distinct = full-trace hash",
+    },
+    "C07": {
+        "jobs": jobs(["nest2_mixed", "nest3", "nest_inactive"], ["plain", "posts"], 1000, 50000, variants=ALLV),
+        "nontrivial": ["nested"],
+        "rule": "plans on machines of depth 2-3; non-trivial = a dispatch invoked behaviours of >= 2 nesting levels; distinct = full-trace hash",
+    },
+    "C08": {
+        "jobs": jobs(["history_none", "history_always", "history_shallow"], ["plain", "lifecycle", "posts"], 800, 40000, variants=ALLV),
+        "nontrivial": ["reentry"],
+        "rule": "enter / move / exit cycles of a 3-region sub-machine under the three history policies, entered normally, by direct entry "
+                "and by fork; history memory probed after every op; non-trivial = the sub-machine was re-entered at least once",
+    },
+    "C09": {
+        "jobs": jobs(["fork_entry", "exit_points"], ["plain", "posts", "lifecycle"], 1000, 50000, variants=ALLV),
+        "nontrivial": ["nested"],
+        "rule": "plans on machines with direct<>, fork, entry_pt<> and exit_pt<> rows incl. the exit points' event types sent from outside; "
+                "non-trivial = a dispatch crossed the sub-machine boundary",
+    },
+    "C10": {
+        "jobs": jobs(["completion_chain"], ["plain", "posts", "queue"], 1500, 80000, variants=ALLV),
+        "nontrivial": ["completion"],
+        "rule": "plans on a machine with completion chains (1-4, conflicts, guards, inside a sub-machine, from the initial state) with "
+                "queued and posted work pending; completion guards latched per entry; non-trivial = a completion transition fired",
+    },
+    "C11": {
+        "jobs": jobs(["blocking"], ["plain", "posts", "queue", "lifecycle"], 1000, 50000, variants=ALLV),
+        "nontrivial": ["swallowed"],
+        "rule": "plans on a 3-region machine with a terminate state and two interrupt states (one / two end events); non-trivial = an "
+                "external event was swallowed (handled code, no behaviour invoked)",
+    },
+    "C12": {
+        "jobs": jobs(["order_rows", "nest2_mixed", "conflict_ortho"], ["throws"], 600, 30000)
+                + jobs(["nest3", "completion_chain", "queue_flat", "queue_nested", "defer_basic", "fork_entry", "exit_points", "history_always"],
+                       ["throws"], 600, 30000, variants=ALLV),
+        "nontrivial": ["throw"],
+        "rule": "fault injection: 1-2 exceptions per faulty op thrown from a guard / exit / action / entry position chosen among the "
+                "callbacks the op actually reaches (dry run on the model), plus posts, under all four switch policies; lockstep + "
+                "invariants I6 (not wedged) and I7 (nothing escapes); non-trivial = an injected exception fired",
+    },
+    "C13": {
+        "jobs": [job(f, "common", 1500, 60000, variants=ALLV, mode="diff:backend") for f in COMMON_FAMS]
+                + [job(f, "common_throws", 600, 30000, variants=ALLV, mode="diff:backend") for f in ["nest2_mixed", "order_rows", "queue_flat"]]
+                + [job(f, "plain", 1000, 40000, variants=ALLV, mode="diff:backend") for f in ["fork_entry", "defer_basic"]]
+                + [job("events_hier", "common", 1000, 40000, mode="diff:backend")],
+        "nontrivial": ["transition"],
+        "rule": "the same plan (events, guard vectors, posts, enqueue/drain, stop/start, throws) executed on back+runtime, back+compile-time, "
+                "backmp11 flat_fold / function_pointer_array / favor_compile_time; normalised traces (false completion-guard re-tries dropped, "
+                "return code reduced to handled/zero, pending totals) compared pairwise with no model in the loop",
+    },
+    "C15": {
+        "jobs": jobs(["nest2_mixed", "exit_points", "history_always", "defer_basic", "queue_flat", "queue_nested"], ["fork"], 800, 40000, variants=ALLV),
+        "nontrivial": ["fork"],
+        "rule": "plans with copy-construct (from const&), copy-assign, move-construct / move-assign (backmp11), destroy, with queued and "
+                "deferred events pending, then different continuations on up to 3 replicas; every behaviour record carries the replica "
+                "that owns the fsm argument and the state object (address ranges): invariant I5; non-trivial = a fork op occurred",
+    },
+    "C16": {
+        "jobs": jobs(["serial_nested"], ["crash"], 1500, 60000),
+        "nontrivial": ["saveload"],
+        "rule": "crash-restart: save a quiescent machine with empty queues to a text or binary archive, destroy it (or keep it as a second "
+                "replica), load into a fresh machine, continue; active ids, history memory and do_serialize data compared after every op",
+    },
+    "C17": {
+        "jobs": jobs(["flags", "blocking", "nest_inactive"], ["lifecycle", "observe"], 800, 40000, variants=ALLV)
+                + jobs(["flags"], ["observe"], 500, 20000, variants=["B+p3", "M+p3"]),
+        "nontrivial": ["flag"],
+        "rule": "is_flag_active<F>() and <F,AND> for every flag on every machine level after every op (and, through the observed active "
+                "ids, inside behaviours); non-trivial = some flag was active at some point of the run",
+    },
+    "C18": {
+        "jobs": jobs(["events_hier"], ["plain", "posts", "queue"], 1500, 60000),
+        "nontrivial": ["multi_candidate"],
+        "rule": "events of a 3-level class hierarchy against exact / base / Kleene triggers competing in one state and across a sub-machine "
+                "boundary, submitted directly, queued and posted; behaviours record the static type, the dynamic type found in the Kleene "
+                "'any', the occurrence id and the payload checksum",
+    },
+    "C19": {
+        "jobs": jobs(["nest2_mixed", "order_rows", "conflict_ortho"], ["plain", "posts"], 500, 20000, variants=POLV)
+                + [job(f, "common", 800, 30000, variants=["B", "B+p1", "B+p2", "B+p3"], mode="diff:policy") for f in ["nest2_mixed", "order_rows", "conflict_ortho"]]
+                + [job(f, "common", 800, 30000, variants=["M", "M+p1", "M+p2", "M+p3"], mode="diff:policy") for f in ["nest2_mixed", "order_rows", "conflict_ortho"]],
+        "nontrivial": ["transition"],
+        "rule": "every behaviour records the active state ids its fsm argument reports at that instant; lockstep against the policy table "
+                "of the model for the three non-default policies; differential: with that field blanked the four policies give identical traces",
     },
 }
